@@ -239,12 +239,22 @@ func (p *eparser) ternary() Expr {
 			} else if ty.k != "id" {
 				p.fail("quantifier type expected")
 			}
+			for ty.k == "id" && p.isOp(".") {
+				p.next()
+				seg := p.next()
+				tyS += "." + seg.s
+			}
 			if ty.k == "id" && p.isOp("(") {
 				// arr(T)
 				p.next()
 				inner := p.next()
+				is := inner.s
+				for p.isOp(".") {
+					p.next()
+					is += "." + p.next().s
+				}
 				p.expectOp(")")
-				tyS = ty.s + "(" + inner.s + ")"
+				tyS = ty.s + "(" + is + ")"
 			}
 			q.Vars = append(q.Vars, QVar{n.s, tyS})
 			if p.isOp(",") {
